@@ -177,11 +177,11 @@ pub open spec fn stack_ok(g: St, ps: Seq<PathBuf>) -> bool {
 // R2: the parameter `path` is renamed `path0` (the loop's `while let Some(path)` binding shadows it; Verus cannot name a shadowed parameter in an invariant)
 //@ rw R11 1 ⟦self._abs(guard, path)?⟧ => ⟦_abs(guard, path0)?⟧
 //@ rw R4 * ⟦HashMap::new()⟧ => ⟦MemfsEntries::new()⟧
-//@ rw R9 1 ⟦vec![abs]⟧ => ⟦vec_of1(abs)⟧
+//@ rw R9 1 re⟦vec!\[abs(\.clone\(\))?\]⟧ => ⟦vec_of1(abs\1)⟧
 //@ rw R3 1 ⟦for name in files {⟧ => ⟦for name in files.iter() {⟧
 //@ rw R1 * ⟦paths.push(entry.path().mash(name));⟧ => ⟦paths.push(entry.path().mash_name(&name));⟧
 //@ rw R3 1 for
-//@ ins after ⟦let mut paths = vec_of1(abs);⟧
+//@ ins after re⟦let mut paths = vec_of1\(abs(?:\.clone\(\))?\);⟧
         let ghost g = guard.st();
         let ghost a0 = paths@[0]@;
         let ghost mut started = false;
